@@ -754,73 +754,73 @@ pub(crate) mod verif_js_op {
     //@ob name=C10.fold.add.2.NN harness=k_c10_fold_add_2_NN props=C10,C01 tier=quick strength=bounded bound="2 operands (numeric/non-numeric pattern NN); operand conversions: a 16-value grid of concrete doubles per operand" fns=js_op::parse_float_add stubs=4 timeout=400 cutdrop=1
     //@ desc="+ folds parseFloat conversions from 0 over 2 operands: Err iff some operand is non-numeric, else exactly the left fold; conversions by contract"
     fold_harness!(k_c10_fold_add_2_NN, 2, 0, parse_float_add, 3);
-    //@ob name=C10.fold.add.3.xxx harness=k_c10_fold_add_3_xxx props=C10,C01 tier=thorough strength=bounded bound="3 operands (numeric/non-numeric pattern xxx); operand conversions: a 16-value grid of concrete doubles per operand" fns=js_op::parse_float_add stubs=4 timeout=400 cutdrop=1
+    //@ob name=C10.fold.add.3.xxx harness=k_c10_fold_add_3_xxx props=C10,C01 tier=off strength=bounded bound="3 operands (numeric/non-numeric pattern xxx); operand conversions: a 16-value grid of concrete doubles per operand" fns=js_op::parse_float_add stubs=4 timeout=400 cutdrop=1
     //@ desc="+ folds parseFloat conversions from 0 over 3 operands: Err iff some operand is non-numeric, else exactly the left fold; conversions by contract"
     fold_harness!(k_c10_fold_add_3_xxx, 3, 0, parse_float_add, 0);
-    //@ob name=C10.fold.add.3.Nxx harness=k_c10_fold_add_3_Nxx props=C10,C01 tier=thorough strength=bounded bound="3 operands (numeric/non-numeric pattern Nxx); operand conversions: a 16-value grid of concrete doubles per operand" fns=js_op::parse_float_add stubs=4 timeout=400 cutdrop=1
+    //@ob name=C10.fold.add.3.Nxx harness=k_c10_fold_add_3_Nxx props=C10,C01 tier=off strength=bounded bound="3 operands (numeric/non-numeric pattern Nxx); operand conversions: a 16-value grid of concrete doubles per operand" fns=js_op::parse_float_add stubs=4 timeout=400 cutdrop=1
     //@ desc="+ folds parseFloat conversions from 0 over 3 operands: Err iff some operand is non-numeric, else exactly the left fold; conversions by contract"
     fold_harness!(k_c10_fold_add_3_Nxx, 3, 0, parse_float_add, 1);
-    //@ob name=C10.fold.add.3.xNx harness=k_c10_fold_add_3_xNx props=C10,C01 tier=thorough strength=bounded bound="3 operands (numeric/non-numeric pattern xNx); operand conversions: a 16-value grid of concrete doubles per operand" fns=js_op::parse_float_add stubs=4 timeout=400 cutdrop=1
+    //@ob name=C10.fold.add.3.xNx harness=k_c10_fold_add_3_xNx props=C10,C01 tier=off strength=bounded bound="3 operands (numeric/non-numeric pattern xNx); operand conversions: a 16-value grid of concrete doubles per operand" fns=js_op::parse_float_add stubs=4 timeout=400 cutdrop=1
     //@ desc="+ folds parseFloat conversions from 0 over 3 operands: Err iff some operand is non-numeric, else exactly the left fold; conversions by contract"
     fold_harness!(k_c10_fold_add_3_xNx, 3, 0, parse_float_add, 2);
-    //@ob name=C10.fold.add.3.NNx harness=k_c10_fold_add_3_NNx props=C10,C01 tier=thorough strength=bounded bound="3 operands (numeric/non-numeric pattern NNx); operand conversions: a 16-value grid of concrete doubles per operand" fns=js_op::parse_float_add stubs=4 timeout=400 cutdrop=1
+    //@ob name=C10.fold.add.3.NNx harness=k_c10_fold_add_3_NNx props=C10,C01 tier=off strength=bounded bound="3 operands (numeric/non-numeric pattern NNx); operand conversions: a 16-value grid of concrete doubles per operand" fns=js_op::parse_float_add stubs=4 timeout=400 cutdrop=1
     //@ desc="+ folds parseFloat conversions from 0 over 3 operands: Err iff some operand is non-numeric, else exactly the left fold; conversions by contract"
     fold_harness!(k_c10_fold_add_3_NNx, 3, 0, parse_float_add, 3);
-    //@ob name=C10.fold.add.3.xxN harness=k_c10_fold_add_3_xxN props=C10,C01 tier=thorough strength=bounded bound="3 operands (numeric/non-numeric pattern xxN); operand conversions: a 16-value grid of concrete doubles per operand" fns=js_op::parse_float_add stubs=4 timeout=400 cutdrop=1
+    //@ob name=C10.fold.add.3.xxN harness=k_c10_fold_add_3_xxN props=C10,C01 tier=off strength=bounded bound="3 operands (numeric/non-numeric pattern xxN); operand conversions: a 16-value grid of concrete doubles per operand" fns=js_op::parse_float_add stubs=4 timeout=400 cutdrop=1
     //@ desc="+ folds parseFloat conversions from 0 over 3 operands: Err iff some operand is non-numeric, else exactly the left fold; conversions by contract"
     fold_harness!(k_c10_fold_add_3_xxN, 3, 0, parse_float_add, 4);
-    //@ob name=C10.fold.add.3.NxN harness=k_c10_fold_add_3_NxN props=C10,C01 tier=thorough strength=bounded bound="3 operands (numeric/non-numeric pattern NxN); operand conversions: a 16-value grid of concrete doubles per operand" fns=js_op::parse_float_add stubs=4 timeout=400 cutdrop=1
+    //@ob name=C10.fold.add.3.NxN harness=k_c10_fold_add_3_NxN props=C10,C01 tier=off strength=bounded bound="3 operands (numeric/non-numeric pattern NxN); operand conversions: a 16-value grid of concrete doubles per operand" fns=js_op::parse_float_add stubs=4 timeout=400 cutdrop=1
     //@ desc="+ folds parseFloat conversions from 0 over 3 operands: Err iff some operand is non-numeric, else exactly the left fold; conversions by contract"
     fold_harness!(k_c10_fold_add_3_NxN, 3, 0, parse_float_add, 5);
-    //@ob name=C10.fold.add.3.xNN harness=k_c10_fold_add_3_xNN props=C10,C01 tier=thorough strength=bounded bound="3 operands (numeric/non-numeric pattern xNN); operand conversions: a 16-value grid of concrete doubles per operand" fns=js_op::parse_float_add stubs=4 timeout=400 cutdrop=1
+    //@ob name=C10.fold.add.3.xNN harness=k_c10_fold_add_3_xNN props=C10,C01 tier=off strength=bounded bound="3 operands (numeric/non-numeric pattern xNN); operand conversions: a 16-value grid of concrete doubles per operand" fns=js_op::parse_float_add stubs=4 timeout=400 cutdrop=1
     //@ desc="+ folds parseFloat conversions from 0 over 3 operands: Err iff some operand is non-numeric, else exactly the left fold; conversions by contract"
     fold_harness!(k_c10_fold_add_3_xNN, 3, 0, parse_float_add, 6);
     //@ob name=C10.fold.add.3.NNN harness=k_c10_fold_add_3_NNN props=C10,C01 tier=thorough strength=bounded bound="3 operands (numeric/non-numeric pattern NNN); operand conversions: a 16-value grid of concrete doubles per operand" fns=js_op::parse_float_add stubs=4 timeout=400 cutdrop=1
     //@ desc="+ folds parseFloat conversions from 0 over 3 operands: Err iff some operand is non-numeric, else exactly the left fold; conversions by contract"
     fold_harness!(k_c10_fold_add_3_NNN, 3, 0, parse_float_add, 7);
-    //@ob name=C10.fold.add.4.xxxx harness=k_c10_fold_add_4_xxxx props=C10,C01 tier=thorough strength=bounded bound="4 operands (numeric/non-numeric pattern xxxx); operand conversions: a 16-value grid of concrete doubles per operand" fns=js_op::parse_float_add stubs=4 timeout=400 cutdrop=1
+    //@ob name=C10.fold.add.4.xxxx harness=k_c10_fold_add_4_xxxx props=C10,C01 tier=off strength=bounded bound="4 operands (numeric/non-numeric pattern xxxx); operand conversions: a 16-value grid of concrete doubles per operand" fns=js_op::parse_float_add stubs=4 timeout=400 cutdrop=1
     //@ desc="+ folds parseFloat conversions from 0 over 4 operands: Err iff some operand is non-numeric, else exactly the left fold; conversions by contract"
     fold_harness!(k_c10_fold_add_4_xxxx, 4, 0, parse_float_add, 0);
-    //@ob name=C10.fold.add.4.Nxxx harness=k_c10_fold_add_4_Nxxx props=C10,C01 tier=thorough strength=bounded bound="4 operands (numeric/non-numeric pattern Nxxx); operand conversions: a 16-value grid of concrete doubles per operand" fns=js_op::parse_float_add stubs=4 timeout=400 cutdrop=1
+    //@ob name=C10.fold.add.4.Nxxx harness=k_c10_fold_add_4_Nxxx props=C10,C01 tier=off strength=bounded bound="4 operands (numeric/non-numeric pattern Nxxx); operand conversions: a 16-value grid of concrete doubles per operand" fns=js_op::parse_float_add stubs=4 timeout=400 cutdrop=1
     //@ desc="+ folds parseFloat conversions from 0 over 4 operands: Err iff some operand is non-numeric, else exactly the left fold; conversions by contract"
     fold_harness!(k_c10_fold_add_4_Nxxx, 4, 0, parse_float_add, 1);
-    //@ob name=C10.fold.add.4.xNxx harness=k_c10_fold_add_4_xNxx props=C10,C01 tier=thorough strength=bounded bound="4 operands (numeric/non-numeric pattern xNxx); operand conversions: a 16-value grid of concrete doubles per operand" fns=js_op::parse_float_add stubs=4 timeout=400 cutdrop=1
+    //@ob name=C10.fold.add.4.xNxx harness=k_c10_fold_add_4_xNxx props=C10,C01 tier=off strength=bounded bound="4 operands (numeric/non-numeric pattern xNxx); operand conversions: a 16-value grid of concrete doubles per operand" fns=js_op::parse_float_add stubs=4 timeout=400 cutdrop=1
     //@ desc="+ folds parseFloat conversions from 0 over 4 operands: Err iff some operand is non-numeric, else exactly the left fold; conversions by contract"
     fold_harness!(k_c10_fold_add_4_xNxx, 4, 0, parse_float_add, 2);
-    //@ob name=C10.fold.add.4.NNxx harness=k_c10_fold_add_4_NNxx props=C10,C01 tier=thorough strength=bounded bound="4 operands (numeric/non-numeric pattern NNxx); operand conversions: a 16-value grid of concrete doubles per operand" fns=js_op::parse_float_add stubs=4 timeout=400 cutdrop=1
+    //@ob name=C10.fold.add.4.NNxx harness=k_c10_fold_add_4_NNxx props=C10,C01 tier=off strength=bounded bound="4 operands (numeric/non-numeric pattern NNxx); operand conversions: a 16-value grid of concrete doubles per operand" fns=js_op::parse_float_add stubs=4 timeout=400 cutdrop=1
     //@ desc="+ folds parseFloat conversions from 0 over 4 operands: Err iff some operand is non-numeric, else exactly the left fold; conversions by contract"
     fold_harness!(k_c10_fold_add_4_NNxx, 4, 0, parse_float_add, 3);
-    //@ob name=C10.fold.add.4.xxNx harness=k_c10_fold_add_4_xxNx props=C10,C01 tier=thorough strength=bounded bound="4 operands (numeric/non-numeric pattern xxNx); operand conversions: a 16-value grid of concrete doubles per operand" fns=js_op::parse_float_add stubs=4 timeout=400 cutdrop=1
+    //@ob name=C10.fold.add.4.xxNx harness=k_c10_fold_add_4_xxNx props=C10,C01 tier=off strength=bounded bound="4 operands (numeric/non-numeric pattern xxNx); operand conversions: a 16-value grid of concrete doubles per operand" fns=js_op::parse_float_add stubs=4 timeout=400 cutdrop=1
     //@ desc="+ folds parseFloat conversions from 0 over 4 operands: Err iff some operand is non-numeric, else exactly the left fold; conversions by contract"
     fold_harness!(k_c10_fold_add_4_xxNx, 4, 0, parse_float_add, 4);
-    //@ob name=C10.fold.add.4.NxNx harness=k_c10_fold_add_4_NxNx props=C10,C01 tier=thorough strength=bounded bound="4 operands (numeric/non-numeric pattern NxNx); operand conversions: a 16-value grid of concrete doubles per operand" fns=js_op::parse_float_add stubs=4 timeout=400 cutdrop=1
+    //@ob name=C10.fold.add.4.NxNx harness=k_c10_fold_add_4_NxNx props=C10,C01 tier=off strength=bounded bound="4 operands (numeric/non-numeric pattern NxNx); operand conversions: a 16-value grid of concrete doubles per operand" fns=js_op::parse_float_add stubs=4 timeout=400 cutdrop=1
     //@ desc="+ folds parseFloat conversions from 0 over 4 operands: Err iff some operand is non-numeric, else exactly the left fold; conversions by contract"
     fold_harness!(k_c10_fold_add_4_NxNx, 4, 0, parse_float_add, 5);
-    //@ob name=C10.fold.add.4.xNNx harness=k_c10_fold_add_4_xNNx props=C10,C01 tier=thorough strength=bounded bound="4 operands (numeric/non-numeric pattern xNNx); operand conversions: a 16-value grid of concrete doubles per operand" fns=js_op::parse_float_add stubs=4 timeout=400 cutdrop=1
+    //@ob name=C10.fold.add.4.xNNx harness=k_c10_fold_add_4_xNNx props=C10,C01 tier=off strength=bounded bound="4 operands (numeric/non-numeric pattern xNNx); operand conversions: a 16-value grid of concrete doubles per operand" fns=js_op::parse_float_add stubs=4 timeout=400 cutdrop=1
     //@ desc="+ folds parseFloat conversions from 0 over 4 operands: Err iff some operand is non-numeric, else exactly the left fold; conversions by contract"
     fold_harness!(k_c10_fold_add_4_xNNx, 4, 0, parse_float_add, 6);
-    //@ob name=C10.fold.add.4.NNNx harness=k_c10_fold_add_4_NNNx props=C10,C01 tier=thorough strength=bounded bound="4 operands (numeric/non-numeric pattern NNNx); operand conversions: a 16-value grid of concrete doubles per operand" fns=js_op::parse_float_add stubs=4 timeout=400 cutdrop=1
+    //@ob name=C10.fold.add.4.NNNx harness=k_c10_fold_add_4_NNNx props=C10,C01 tier=off strength=bounded bound="4 operands (numeric/non-numeric pattern NNNx); operand conversions: a 16-value grid of concrete doubles per operand" fns=js_op::parse_float_add stubs=4 timeout=400 cutdrop=1
     //@ desc="+ folds parseFloat conversions from 0 over 4 operands: Err iff some operand is non-numeric, else exactly the left fold; conversions by contract"
     fold_harness!(k_c10_fold_add_4_NNNx, 4, 0, parse_float_add, 7);
-    //@ob name=C10.fold.add.4.xxxN harness=k_c10_fold_add_4_xxxN props=C10,C01 tier=thorough strength=bounded bound="4 operands (numeric/non-numeric pattern xxxN); operand conversions: a 16-value grid of concrete doubles per operand" fns=js_op::parse_float_add stubs=4 timeout=400 cutdrop=1
+    //@ob name=C10.fold.add.4.xxxN harness=k_c10_fold_add_4_xxxN props=C10,C01 tier=off strength=bounded bound="4 operands (numeric/non-numeric pattern xxxN); operand conversions: a 16-value grid of concrete doubles per operand" fns=js_op::parse_float_add stubs=4 timeout=400 cutdrop=1
     //@ desc="+ folds parseFloat conversions from 0 over 4 operands: Err iff some operand is non-numeric, else exactly the left fold; conversions by contract"
     fold_harness!(k_c10_fold_add_4_xxxN, 4, 0, parse_float_add, 8);
-    //@ob name=C10.fold.add.4.NxxN harness=k_c10_fold_add_4_NxxN props=C10,C01 tier=thorough strength=bounded bound="4 operands (numeric/non-numeric pattern NxxN); operand conversions: a 16-value grid of concrete doubles per operand" fns=js_op::parse_float_add stubs=4 timeout=400 cutdrop=1
+    //@ob name=C10.fold.add.4.NxxN harness=k_c10_fold_add_4_NxxN props=C10,C01 tier=off strength=bounded bound="4 operands (numeric/non-numeric pattern NxxN); operand conversions: a 16-value grid of concrete doubles per operand" fns=js_op::parse_float_add stubs=4 timeout=400 cutdrop=1
     //@ desc="+ folds parseFloat conversions from 0 over 4 operands: Err iff some operand is non-numeric, else exactly the left fold; conversions by contract"
     fold_harness!(k_c10_fold_add_4_NxxN, 4, 0, parse_float_add, 9);
-    //@ob name=C10.fold.add.4.xNxN harness=k_c10_fold_add_4_xNxN props=C10,C01 tier=thorough strength=bounded bound="4 operands (numeric/non-numeric pattern xNxN); operand conversions: a 16-value grid of concrete doubles per operand" fns=js_op::parse_float_add stubs=4 timeout=400 cutdrop=1
+    //@ob name=C10.fold.add.4.xNxN harness=k_c10_fold_add_4_xNxN props=C10,C01 tier=off strength=bounded bound="4 operands (numeric/non-numeric pattern xNxN); operand conversions: a 16-value grid of concrete doubles per operand" fns=js_op::parse_float_add stubs=4 timeout=400 cutdrop=1
     //@ desc="+ folds parseFloat conversions from 0 over 4 operands: Err iff some operand is non-numeric, else exactly the left fold; conversions by contract"
     fold_harness!(k_c10_fold_add_4_xNxN, 4, 0, parse_float_add, 10);
-    //@ob name=C10.fold.add.4.NNxN harness=k_c10_fold_add_4_NNxN props=C10,C01 tier=thorough strength=bounded bound="4 operands (numeric/non-numeric pattern NNxN); operand conversions: a 16-value grid of concrete doubles per operand" fns=js_op::parse_float_add stubs=4 timeout=400 cutdrop=1
+    //@ob name=C10.fold.add.4.NNxN harness=k_c10_fold_add_4_NNxN props=C10,C01 tier=off strength=bounded bound="4 operands (numeric/non-numeric pattern NNxN); operand conversions: a 16-value grid of concrete doubles per operand" fns=js_op::parse_float_add stubs=4 timeout=400 cutdrop=1
     //@ desc="+ folds parseFloat conversions from 0 over 4 operands: Err iff some operand is non-numeric, else exactly the left fold; conversions by contract"
     fold_harness!(k_c10_fold_add_4_NNxN, 4, 0, parse_float_add, 11);
-    //@ob name=C10.fold.add.4.xxNN harness=k_c10_fold_add_4_xxNN props=C10,C01 tier=thorough strength=bounded bound="4 operands (numeric/non-numeric pattern xxNN); operand conversions: a 16-value grid of concrete doubles per operand" fns=js_op::parse_float_add stubs=4 timeout=400 cutdrop=1
+    //@ob name=C10.fold.add.4.xxNN harness=k_c10_fold_add_4_xxNN props=C10,C01 tier=off strength=bounded bound="4 operands (numeric/non-numeric pattern xxNN); operand conversions: a 16-value grid of concrete doubles per operand" fns=js_op::parse_float_add stubs=4 timeout=400 cutdrop=1
     //@ desc="+ folds parseFloat conversions from 0 over 4 operands: Err iff some operand is non-numeric, else exactly the left fold; conversions by contract"
     fold_harness!(k_c10_fold_add_4_xxNN, 4, 0, parse_float_add, 12);
-    //@ob name=C10.fold.add.4.NxNN harness=k_c10_fold_add_4_NxNN props=C10,C01 tier=thorough strength=bounded bound="4 operands (numeric/non-numeric pattern NxNN); operand conversions: a 16-value grid of concrete doubles per operand" fns=js_op::parse_float_add stubs=4 timeout=400 cutdrop=1
+    //@ob name=C10.fold.add.4.NxNN harness=k_c10_fold_add_4_NxNN props=C10,C01 tier=off strength=bounded bound="4 operands (numeric/non-numeric pattern NxNN); operand conversions: a 16-value grid of concrete doubles per operand" fns=js_op::parse_float_add stubs=4 timeout=400 cutdrop=1
     //@ desc="+ folds parseFloat conversions from 0 over 4 operands: Err iff some operand is non-numeric, else exactly the left fold; conversions by contract"
     fold_harness!(k_c10_fold_add_4_NxNN, 4, 0, parse_float_add, 13);
-    //@ob name=C10.fold.add.4.xNNN harness=k_c10_fold_add_4_xNNN props=C10,C01 tier=thorough strength=bounded bound="4 operands (numeric/non-numeric pattern xNNN); operand conversions: a 16-value grid of concrete doubles per operand" fns=js_op::parse_float_add stubs=4 timeout=400 cutdrop=1
+    //@ob name=C10.fold.add.4.xNNN harness=k_c10_fold_add_4_xNNN props=C10,C01 tier=off strength=bounded bound="4 operands (numeric/non-numeric pattern xNNN); operand conversions: a 16-value grid of concrete doubles per operand" fns=js_op::parse_float_add stubs=4 timeout=400 cutdrop=1
     //@ desc="+ folds parseFloat conversions from 0 over 4 operands: Err iff some operand is non-numeric, else exactly the left fold; conversions by contract"
     fold_harness!(k_c10_fold_add_4_xNNN, 4, 0, parse_float_add, 14);
     //@ob name=C10.fold.add.4.NNNN harness=k_c10_fold_add_4_NNNN props=C10,C01 tier=thorough strength=bounded bound="4 operands (numeric/non-numeric pattern NNNN); operand conversions: a 16-value grid of concrete doubles per operand" fns=js_op::parse_float_add stubs=4 timeout=400 cutdrop=1
@@ -847,73 +847,73 @@ pub(crate) mod verif_js_op {
     //@ob name=C10.fold.mul.2.NN harness=k_c10_fold_mul_2_NN props=C10,C01 tier=quick strength=bounded bound="2 operands (numeric/non-numeric pattern NN); operand conversions: a 16-value grid of concrete doubles per operand" fns=js_op::parse_float_mul stubs=4 timeout=400 cutdrop=1
     //@ desc="* folds parseFloat conversions from 1 over 2 operands: Err iff some operand is non-numeric, else exactly the left fold; conversions by contract"
     fold_harness!(k_c10_fold_mul_2_NN, 2, 1, parse_float_mul, 3);
-    //@ob name=C10.fold.mul.3.xxx harness=k_c10_fold_mul_3_xxx props=C10,C01 tier=thorough strength=bounded bound="3 operands (numeric/non-numeric pattern xxx); operand conversions: a 16-value grid of concrete doubles per operand" fns=js_op::parse_float_mul stubs=4 timeout=400 cutdrop=1
+    //@ob name=C10.fold.mul.3.xxx harness=k_c10_fold_mul_3_xxx props=C10,C01 tier=off strength=bounded bound="3 operands (numeric/non-numeric pattern xxx); operand conversions: a 16-value grid of concrete doubles per operand" fns=js_op::parse_float_mul stubs=4 timeout=400 cutdrop=1
     //@ desc="* folds parseFloat conversions from 1 over 3 operands: Err iff some operand is non-numeric, else exactly the left fold; conversions by contract"
     fold_harness!(k_c10_fold_mul_3_xxx, 3, 1, parse_float_mul, 0);
-    //@ob name=C10.fold.mul.3.Nxx harness=k_c10_fold_mul_3_Nxx props=C10,C01 tier=thorough strength=bounded bound="3 operands (numeric/non-numeric pattern Nxx); operand conversions: a 16-value grid of concrete doubles per operand" fns=js_op::parse_float_mul stubs=4 timeout=400 cutdrop=1
+    //@ob name=C10.fold.mul.3.Nxx harness=k_c10_fold_mul_3_Nxx props=C10,C01 tier=off strength=bounded bound="3 operands (numeric/non-numeric pattern Nxx); operand conversions: a 16-value grid of concrete doubles per operand" fns=js_op::parse_float_mul stubs=4 timeout=400 cutdrop=1
     //@ desc="* folds parseFloat conversions from 1 over 3 operands: Err iff some operand is non-numeric, else exactly the left fold; conversions by contract"
     fold_harness!(k_c10_fold_mul_3_Nxx, 3, 1, parse_float_mul, 1);
-    //@ob name=C10.fold.mul.3.xNx harness=k_c10_fold_mul_3_xNx props=C10,C01 tier=thorough strength=bounded bound="3 operands (numeric/non-numeric pattern xNx); operand conversions: a 16-value grid of concrete doubles per operand" fns=js_op::parse_float_mul stubs=4 timeout=400 cutdrop=1
+    //@ob name=C10.fold.mul.3.xNx harness=k_c10_fold_mul_3_xNx props=C10,C01 tier=off strength=bounded bound="3 operands (numeric/non-numeric pattern xNx); operand conversions: a 16-value grid of concrete doubles per operand" fns=js_op::parse_float_mul stubs=4 timeout=400 cutdrop=1
     //@ desc="* folds parseFloat conversions from 1 over 3 operands: Err iff some operand is non-numeric, else exactly the left fold; conversions by contract"
     fold_harness!(k_c10_fold_mul_3_xNx, 3, 1, parse_float_mul, 2);
-    //@ob name=C10.fold.mul.3.NNx harness=k_c10_fold_mul_3_NNx props=C10,C01 tier=thorough strength=bounded bound="3 operands (numeric/non-numeric pattern NNx); operand conversions: a 16-value grid of concrete doubles per operand" fns=js_op::parse_float_mul stubs=4 timeout=400 cutdrop=1
+    //@ob name=C10.fold.mul.3.NNx harness=k_c10_fold_mul_3_NNx props=C10,C01 tier=off strength=bounded bound="3 operands (numeric/non-numeric pattern NNx); operand conversions: a 16-value grid of concrete doubles per operand" fns=js_op::parse_float_mul stubs=4 timeout=400 cutdrop=1
     //@ desc="* folds parseFloat conversions from 1 over 3 operands: Err iff some operand is non-numeric, else exactly the left fold; conversions by contract"
     fold_harness!(k_c10_fold_mul_3_NNx, 3, 1, parse_float_mul, 3);
-    //@ob name=C10.fold.mul.3.xxN harness=k_c10_fold_mul_3_xxN props=C10,C01 tier=thorough strength=bounded bound="3 operands (numeric/non-numeric pattern xxN); operand conversions: a 16-value grid of concrete doubles per operand" fns=js_op::parse_float_mul stubs=4 timeout=400 cutdrop=1
+    //@ob name=C10.fold.mul.3.xxN harness=k_c10_fold_mul_3_xxN props=C10,C01 tier=off strength=bounded bound="3 operands (numeric/non-numeric pattern xxN); operand conversions: a 16-value grid of concrete doubles per operand" fns=js_op::parse_float_mul stubs=4 timeout=400 cutdrop=1
     //@ desc="* folds parseFloat conversions from 1 over 3 operands: Err iff some operand is non-numeric, else exactly the left fold; conversions by contract"
     fold_harness!(k_c10_fold_mul_3_xxN, 3, 1, parse_float_mul, 4);
-    //@ob name=C10.fold.mul.3.NxN harness=k_c10_fold_mul_3_NxN props=C10,C01 tier=thorough strength=bounded bound="3 operands (numeric/non-numeric pattern NxN); operand conversions: a 16-value grid of concrete doubles per operand" fns=js_op::parse_float_mul stubs=4 timeout=400 cutdrop=1
+    //@ob name=C10.fold.mul.3.NxN harness=k_c10_fold_mul_3_NxN props=C10,C01 tier=off strength=bounded bound="3 operands (numeric/non-numeric pattern NxN); operand conversions: a 16-value grid of concrete doubles per operand" fns=js_op::parse_float_mul stubs=4 timeout=400 cutdrop=1
     //@ desc="* folds parseFloat conversions from 1 over 3 operands: Err iff some operand is non-numeric, else exactly the left fold; conversions by contract"
     fold_harness!(k_c10_fold_mul_3_NxN, 3, 1, parse_float_mul, 5);
-    //@ob name=C10.fold.mul.3.xNN harness=k_c10_fold_mul_3_xNN props=C10,C01 tier=thorough strength=bounded bound="3 operands (numeric/non-numeric pattern xNN); operand conversions: a 16-value grid of concrete doubles per operand" fns=js_op::parse_float_mul stubs=4 timeout=400 cutdrop=1
+    //@ob name=C10.fold.mul.3.xNN harness=k_c10_fold_mul_3_xNN props=C10,C01 tier=off strength=bounded bound="3 operands (numeric/non-numeric pattern xNN); operand conversions: a 16-value grid of concrete doubles per operand" fns=js_op::parse_float_mul stubs=4 timeout=400 cutdrop=1
     //@ desc="* folds parseFloat conversions from 1 over 3 operands: Err iff some operand is non-numeric, else exactly the left fold; conversions by contract"
     fold_harness!(k_c10_fold_mul_3_xNN, 3, 1, parse_float_mul, 6);
     //@ob name=C10.fold.mul.3.NNN harness=k_c10_fold_mul_3_NNN props=C10,C01 tier=thorough strength=bounded bound="3 operands (numeric/non-numeric pattern NNN); operand conversions: a 16-value grid of concrete doubles per operand" fns=js_op::parse_float_mul stubs=4 timeout=400 cutdrop=1
     //@ desc="* folds parseFloat conversions from 1 over 3 operands: Err iff some operand is non-numeric, else exactly the left fold; conversions by contract"
     fold_harness!(k_c10_fold_mul_3_NNN, 3, 1, parse_float_mul, 7);
-    //@ob name=C10.fold.mul.4.xxxx harness=k_c10_fold_mul_4_xxxx props=C10,C01 tier=thorough strength=bounded bound="4 operands (numeric/non-numeric pattern xxxx); operand conversions: a 16-value grid of concrete doubles per operand" fns=js_op::parse_float_mul stubs=4 timeout=400 cutdrop=1
+    //@ob name=C10.fold.mul.4.xxxx harness=k_c10_fold_mul_4_xxxx props=C10,C01 tier=off strength=bounded bound="4 operands (numeric/non-numeric pattern xxxx); operand conversions: a 16-value grid of concrete doubles per operand" fns=js_op::parse_float_mul stubs=4 timeout=400 cutdrop=1
     //@ desc="* folds parseFloat conversions from 1 over 4 operands: Err iff some operand is non-numeric, else exactly the left fold; conversions by contract"
     fold_harness!(k_c10_fold_mul_4_xxxx, 4, 1, parse_float_mul, 0);
-    //@ob name=C10.fold.mul.4.Nxxx harness=k_c10_fold_mul_4_Nxxx props=C10,C01 tier=thorough strength=bounded bound="4 operands (numeric/non-numeric pattern Nxxx); operand conversions: a 16-value grid of concrete doubles per operand" fns=js_op::parse_float_mul stubs=4 timeout=400 cutdrop=1
+    //@ob name=C10.fold.mul.4.Nxxx harness=k_c10_fold_mul_4_Nxxx props=C10,C01 tier=off strength=bounded bound="4 operands (numeric/non-numeric pattern Nxxx); operand conversions: a 16-value grid of concrete doubles per operand" fns=js_op::parse_float_mul stubs=4 timeout=400 cutdrop=1
     //@ desc="* folds parseFloat conversions from 1 over 4 operands: Err iff some operand is non-numeric, else exactly the left fold; conversions by contract"
     fold_harness!(k_c10_fold_mul_4_Nxxx, 4, 1, parse_float_mul, 1);
-    //@ob name=C10.fold.mul.4.xNxx harness=k_c10_fold_mul_4_xNxx props=C10,C01 tier=thorough strength=bounded bound="4 operands (numeric/non-numeric pattern xNxx); operand conversions: a 16-value grid of concrete doubles per operand" fns=js_op::parse_float_mul stubs=4 timeout=400 cutdrop=1
+    //@ob name=C10.fold.mul.4.xNxx harness=k_c10_fold_mul_4_xNxx props=C10,C01 tier=off strength=bounded bound="4 operands (numeric/non-numeric pattern xNxx); operand conversions: a 16-value grid of concrete doubles per operand" fns=js_op::parse_float_mul stubs=4 timeout=400 cutdrop=1
     //@ desc="* folds parseFloat conversions from 1 over 4 operands: Err iff some operand is non-numeric, else exactly the left fold; conversions by contract"
     fold_harness!(k_c10_fold_mul_4_xNxx, 4, 1, parse_float_mul, 2);
-    //@ob name=C10.fold.mul.4.NNxx harness=k_c10_fold_mul_4_NNxx props=C10,C01 tier=thorough strength=bounded bound="4 operands (numeric/non-numeric pattern NNxx); operand conversions: a 16-value grid of concrete doubles per operand" fns=js_op::parse_float_mul stubs=4 timeout=400 cutdrop=1
+    //@ob name=C10.fold.mul.4.NNxx harness=k_c10_fold_mul_4_NNxx props=C10,C01 tier=off strength=bounded bound="4 operands (numeric/non-numeric pattern NNxx); operand conversions: a 16-value grid of concrete doubles per operand" fns=js_op::parse_float_mul stubs=4 timeout=400 cutdrop=1
     //@ desc="* folds parseFloat conversions from 1 over 4 operands: Err iff some operand is non-numeric, else exactly the left fold; conversions by contract"
     fold_harness!(k_c10_fold_mul_4_NNxx, 4, 1, parse_float_mul, 3);
-    //@ob name=C10.fold.mul.4.xxNx harness=k_c10_fold_mul_4_xxNx props=C10,C01 tier=thorough strength=bounded bound="4 operands (numeric/non-numeric pattern xxNx); operand conversions: a 16-value grid of concrete doubles per operand" fns=js_op::parse_float_mul stubs=4 timeout=400 cutdrop=1
+    //@ob name=C10.fold.mul.4.xxNx harness=k_c10_fold_mul_4_xxNx props=C10,C01 tier=off strength=bounded bound="4 operands (numeric/non-numeric pattern xxNx); operand conversions: a 16-value grid of concrete doubles per operand" fns=js_op::parse_float_mul stubs=4 timeout=400 cutdrop=1
     //@ desc="* folds parseFloat conversions from 1 over 4 operands: Err iff some operand is non-numeric, else exactly the left fold; conversions by contract"
     fold_harness!(k_c10_fold_mul_4_xxNx, 4, 1, parse_float_mul, 4);
-    //@ob name=C10.fold.mul.4.NxNx harness=k_c10_fold_mul_4_NxNx props=C10,C01 tier=thorough strength=bounded bound="4 operands (numeric/non-numeric pattern NxNx); operand conversions: a 16-value grid of concrete doubles per operand" fns=js_op::parse_float_mul stubs=4 timeout=400 cutdrop=1
+    //@ob name=C10.fold.mul.4.NxNx harness=k_c10_fold_mul_4_NxNx props=C10,C01 tier=off strength=bounded bound="4 operands (numeric/non-numeric pattern NxNx); operand conversions: a 16-value grid of concrete doubles per operand" fns=js_op::parse_float_mul stubs=4 timeout=400 cutdrop=1
     //@ desc="* folds parseFloat conversions from 1 over 4 operands: Err iff some operand is non-numeric, else exactly the left fold; conversions by contract"
     fold_harness!(k_c10_fold_mul_4_NxNx, 4, 1, parse_float_mul, 5);
-    //@ob name=C10.fold.mul.4.xNNx harness=k_c10_fold_mul_4_xNNx props=C10,C01 tier=thorough strength=bounded bound="4 operands (numeric/non-numeric pattern xNNx); operand conversions: a 16-value grid of concrete doubles per operand" fns=js_op::parse_float_mul stubs=4 timeout=400 cutdrop=1
+    //@ob name=C10.fold.mul.4.xNNx harness=k_c10_fold_mul_4_xNNx props=C10,C01 tier=off strength=bounded bound="4 operands (numeric/non-numeric pattern xNNx); operand conversions: a 16-value grid of concrete doubles per operand" fns=js_op::parse_float_mul stubs=4 timeout=400 cutdrop=1
     //@ desc="* folds parseFloat conversions from 1 over 4 operands: Err iff some operand is non-numeric, else exactly the left fold; conversions by contract"
     fold_harness!(k_c10_fold_mul_4_xNNx, 4, 1, parse_float_mul, 6);
-    //@ob name=C10.fold.mul.4.NNNx harness=k_c10_fold_mul_4_NNNx props=C10,C01 tier=thorough strength=bounded bound="4 operands (numeric/non-numeric pattern NNNx); operand conversions: a 16-value grid of concrete doubles per operand" fns=js_op::parse_float_mul stubs=4 timeout=400 cutdrop=1
+    //@ob name=C10.fold.mul.4.NNNx harness=k_c10_fold_mul_4_NNNx props=C10,C01 tier=off strength=bounded bound="4 operands (numeric/non-numeric pattern NNNx); operand conversions: a 16-value grid of concrete doubles per operand" fns=js_op::parse_float_mul stubs=4 timeout=400 cutdrop=1
     //@ desc="* folds parseFloat conversions from 1 over 4 operands: Err iff some operand is non-numeric, else exactly the left fold; conversions by contract"
     fold_harness!(k_c10_fold_mul_4_NNNx, 4, 1, parse_float_mul, 7);
-    //@ob name=C10.fold.mul.4.xxxN harness=k_c10_fold_mul_4_xxxN props=C10,C01 tier=thorough strength=bounded bound="4 operands (numeric/non-numeric pattern xxxN); operand conversions: a 16-value grid of concrete doubles per operand" fns=js_op::parse_float_mul stubs=4 timeout=400 cutdrop=1
+    //@ob name=C10.fold.mul.4.xxxN harness=k_c10_fold_mul_4_xxxN props=C10,C01 tier=off strength=bounded bound="4 operands (numeric/non-numeric pattern xxxN); operand conversions: a 16-value grid of concrete doubles per operand" fns=js_op::parse_float_mul stubs=4 timeout=400 cutdrop=1
     //@ desc="* folds parseFloat conversions from 1 over 4 operands: Err iff some operand is non-numeric, else exactly the left fold; conversions by contract"
     fold_harness!(k_c10_fold_mul_4_xxxN, 4, 1, parse_float_mul, 8);
-    //@ob name=C10.fold.mul.4.NxxN harness=k_c10_fold_mul_4_NxxN props=C10,C01 tier=thorough strength=bounded bound="4 operands (numeric/non-numeric pattern NxxN); operand conversions: a 16-value grid of concrete doubles per operand" fns=js_op::parse_float_mul stubs=4 timeout=400 cutdrop=1
+    //@ob name=C10.fold.mul.4.NxxN harness=k_c10_fold_mul_4_NxxN props=C10,C01 tier=off strength=bounded bound="4 operands (numeric/non-numeric pattern NxxN); operand conversions: a 16-value grid of concrete doubles per operand" fns=js_op::parse_float_mul stubs=4 timeout=400 cutdrop=1
     //@ desc="* folds parseFloat conversions from 1 over 4 operands: Err iff some operand is non-numeric, else exactly the left fold; conversions by contract"
     fold_harness!(k_c10_fold_mul_4_NxxN, 4, 1, parse_float_mul, 9);
-    //@ob name=C10.fold.mul.4.xNxN harness=k_c10_fold_mul_4_xNxN props=C10,C01 tier=thorough strength=bounded bound="4 operands (numeric/non-numeric pattern xNxN); operand conversions: a 16-value grid of concrete doubles per operand" fns=js_op::parse_float_mul stubs=4 timeout=400 cutdrop=1
+    //@ob name=C10.fold.mul.4.xNxN harness=k_c10_fold_mul_4_xNxN props=C10,C01 tier=off strength=bounded bound="4 operands (numeric/non-numeric pattern xNxN); operand conversions: a 16-value grid of concrete doubles per operand" fns=js_op::parse_float_mul stubs=4 timeout=400 cutdrop=1
     //@ desc="* folds parseFloat conversions from 1 over 4 operands: Err iff some operand is non-numeric, else exactly the left fold; conversions by contract"
     fold_harness!(k_c10_fold_mul_4_xNxN, 4, 1, parse_float_mul, 10);
-    //@ob name=C10.fold.mul.4.NNxN harness=k_c10_fold_mul_4_NNxN props=C10,C01 tier=thorough strength=bounded bound="4 operands (numeric/non-numeric pattern NNxN); operand conversions: a 16-value grid of concrete doubles per operand" fns=js_op::parse_float_mul stubs=4 timeout=400 cutdrop=1
+    //@ob name=C10.fold.mul.4.NNxN harness=k_c10_fold_mul_4_NNxN props=C10,C01 tier=off strength=bounded bound="4 operands (numeric/non-numeric pattern NNxN); operand conversions: a 16-value grid of concrete doubles per operand" fns=js_op::parse_float_mul stubs=4 timeout=400 cutdrop=1
     //@ desc="* folds parseFloat conversions from 1 over 4 operands: Err iff some operand is non-numeric, else exactly the left fold; conversions by contract"
     fold_harness!(k_c10_fold_mul_4_NNxN, 4, 1, parse_float_mul, 11);
-    //@ob name=C10.fold.mul.4.xxNN harness=k_c10_fold_mul_4_xxNN props=C10,C01 tier=thorough strength=bounded bound="4 operands (numeric/non-numeric pattern xxNN); operand conversions: a 16-value grid of concrete doubles per operand" fns=js_op::parse_float_mul stubs=4 timeout=400 cutdrop=1
+    //@ob name=C10.fold.mul.4.xxNN harness=k_c10_fold_mul_4_xxNN props=C10,C01 tier=off strength=bounded bound="4 operands (numeric/non-numeric pattern xxNN); operand conversions: a 16-value grid of concrete doubles per operand" fns=js_op::parse_float_mul stubs=4 timeout=400 cutdrop=1
     //@ desc="* folds parseFloat conversions from 1 over 4 operands: Err iff some operand is non-numeric, else exactly the left fold; conversions by contract"
     fold_harness!(k_c10_fold_mul_4_xxNN, 4, 1, parse_float_mul, 12);
-    //@ob name=C10.fold.mul.4.NxNN harness=k_c10_fold_mul_4_NxNN props=C10,C01 tier=thorough strength=bounded bound="4 operands (numeric/non-numeric pattern NxNN); operand conversions: a 16-value grid of concrete doubles per operand" fns=js_op::parse_float_mul stubs=4 timeout=400 cutdrop=1
+    //@ob name=C10.fold.mul.4.NxNN harness=k_c10_fold_mul_4_NxNN props=C10,C01 tier=off strength=bounded bound="4 operands (numeric/non-numeric pattern NxNN); operand conversions: a 16-value grid of concrete doubles per operand" fns=js_op::parse_float_mul stubs=4 timeout=400 cutdrop=1
     //@ desc="* folds parseFloat conversions from 1 over 4 operands: Err iff some operand is non-numeric, else exactly the left fold; conversions by contract"
     fold_harness!(k_c10_fold_mul_4_NxNN, 4, 1, parse_float_mul, 13);
-    //@ob name=C10.fold.mul.4.xNNN harness=k_c10_fold_mul_4_xNNN props=C10,C01 tier=thorough strength=bounded bound="4 operands (numeric/non-numeric pattern xNNN); operand conversions: a 16-value grid of concrete doubles per operand" fns=js_op::parse_float_mul stubs=4 timeout=400 cutdrop=1
+    //@ob name=C10.fold.mul.4.xNNN harness=k_c10_fold_mul_4_xNNN props=C10,C01 tier=off strength=bounded bound="4 operands (numeric/non-numeric pattern xNNN); operand conversions: a 16-value grid of concrete doubles per operand" fns=js_op::parse_float_mul stubs=4 timeout=400 cutdrop=1
     //@ desc="* folds parseFloat conversions from 1 over 4 operands: Err iff some operand is non-numeric, else exactly the left fold; conversions by contract"
     fold_harness!(k_c10_fold_mul_4_xNNN, 4, 1, parse_float_mul, 14);
     //@ob name=C10.fold.mul.4.NNNN harness=k_c10_fold_mul_4_NNNN props=C10,C01 tier=thorough strength=bounded bound="4 operands (numeric/non-numeric pattern NNNN); operand conversions: a 16-value grid of concrete doubles per operand" fns=js_op::parse_float_mul stubs=4 timeout=400 cutdrop=1
@@ -937,73 +937,73 @@ pub(crate) mod verif_js_op {
     //@ob name=C10.fold.max.2.NN harness=k_c10_fold_max_2_NN props=C10,C01 tier=quick strength=bounded bound="2 operands (numeric/non-numeric pattern NN); operand conversions: every double" fns=js_op::abstract_max stubs=4 timeout=400 cutdrop=1
     //@ desc="max of Number conversions over 2 operands: Err iff some operand is non-numeric, else exactly the left fold; conversions by contract"
     fold_harness!(k_c10_fold_max_2_NN, 2, 2, abstract_max, 3);
-    //@ob name=C10.fold.max.3.xxx harness=k_c10_fold_max_3_xxx props=C10,C01 tier=thorough strength=bounded bound="3 operands (numeric/non-numeric pattern xxx); operand conversions: every double" fns=js_op::abstract_max stubs=4 timeout=400 cutdrop=1
+    //@ob name=C10.fold.max.3.xxx harness=k_c10_fold_max_3_xxx props=C10,C01 tier=off strength=bounded bound="3 operands (numeric/non-numeric pattern xxx); operand conversions: every double" fns=js_op::abstract_max stubs=4 timeout=400 cutdrop=1
     //@ desc="max of Number conversions over 3 operands: Err iff some operand is non-numeric, else exactly the left fold; conversions by contract"
     fold_harness!(k_c10_fold_max_3_xxx, 3, 2, abstract_max, 0);
-    //@ob name=C10.fold.max.3.Nxx harness=k_c10_fold_max_3_Nxx props=C10,C01 tier=thorough strength=bounded bound="3 operands (numeric/non-numeric pattern Nxx); operand conversions: every double" fns=js_op::abstract_max stubs=4 timeout=400 cutdrop=1
+    //@ob name=C10.fold.max.3.Nxx harness=k_c10_fold_max_3_Nxx props=C10,C01 tier=off strength=bounded bound="3 operands (numeric/non-numeric pattern Nxx); operand conversions: every double" fns=js_op::abstract_max stubs=4 timeout=400 cutdrop=1
     //@ desc="max of Number conversions over 3 operands: Err iff some operand is non-numeric, else exactly the left fold; conversions by contract"
     fold_harness!(k_c10_fold_max_3_Nxx, 3, 2, abstract_max, 1);
-    //@ob name=C10.fold.max.3.xNx harness=k_c10_fold_max_3_xNx props=C10,C01 tier=thorough strength=bounded bound="3 operands (numeric/non-numeric pattern xNx); operand conversions: every double" fns=js_op::abstract_max stubs=4 timeout=400 cutdrop=1
+    //@ob name=C10.fold.max.3.xNx harness=k_c10_fold_max_3_xNx props=C10,C01 tier=off strength=bounded bound="3 operands (numeric/non-numeric pattern xNx); operand conversions: every double" fns=js_op::abstract_max stubs=4 timeout=400 cutdrop=1
     //@ desc="max of Number conversions over 3 operands: Err iff some operand is non-numeric, else exactly the left fold; conversions by contract"
     fold_harness!(k_c10_fold_max_3_xNx, 3, 2, abstract_max, 2);
-    //@ob name=C10.fold.max.3.NNx harness=k_c10_fold_max_3_NNx props=C10,C01 tier=thorough strength=bounded bound="3 operands (numeric/non-numeric pattern NNx); operand conversions: every double" fns=js_op::abstract_max stubs=4 timeout=400 cutdrop=1
+    //@ob name=C10.fold.max.3.NNx harness=k_c10_fold_max_3_NNx props=C10,C01 tier=off strength=bounded bound="3 operands (numeric/non-numeric pattern NNx); operand conversions: every double" fns=js_op::abstract_max stubs=4 timeout=400 cutdrop=1
     //@ desc="max of Number conversions over 3 operands: Err iff some operand is non-numeric, else exactly the left fold; conversions by contract"
     fold_harness!(k_c10_fold_max_3_NNx, 3, 2, abstract_max, 3);
-    //@ob name=C10.fold.max.3.xxN harness=k_c10_fold_max_3_xxN props=C10,C01 tier=thorough strength=bounded bound="3 operands (numeric/non-numeric pattern xxN); operand conversions: every double" fns=js_op::abstract_max stubs=4 timeout=400 cutdrop=1
+    //@ob name=C10.fold.max.3.xxN harness=k_c10_fold_max_3_xxN props=C10,C01 tier=off strength=bounded bound="3 operands (numeric/non-numeric pattern xxN); operand conversions: every double" fns=js_op::abstract_max stubs=4 timeout=400 cutdrop=1
     //@ desc="max of Number conversions over 3 operands: Err iff some operand is non-numeric, else exactly the left fold; conversions by contract"
     fold_harness!(k_c10_fold_max_3_xxN, 3, 2, abstract_max, 4);
-    //@ob name=C10.fold.max.3.NxN harness=k_c10_fold_max_3_NxN props=C10,C01 tier=thorough strength=bounded bound="3 operands (numeric/non-numeric pattern NxN); operand conversions: every double" fns=js_op::abstract_max stubs=4 timeout=400 cutdrop=1
+    //@ob name=C10.fold.max.3.NxN harness=k_c10_fold_max_3_NxN props=C10,C01 tier=off strength=bounded bound="3 operands (numeric/non-numeric pattern NxN); operand conversions: every double" fns=js_op::abstract_max stubs=4 timeout=400 cutdrop=1
     //@ desc="max of Number conversions over 3 operands: Err iff some operand is non-numeric, else exactly the left fold; conversions by contract"
     fold_harness!(k_c10_fold_max_3_NxN, 3, 2, abstract_max, 5);
-    //@ob name=C10.fold.max.3.xNN harness=k_c10_fold_max_3_xNN props=C10,C01 tier=thorough strength=bounded bound="3 operands (numeric/non-numeric pattern xNN); operand conversions: every double" fns=js_op::abstract_max stubs=4 timeout=400 cutdrop=1
+    //@ob name=C10.fold.max.3.xNN harness=k_c10_fold_max_3_xNN props=C10,C01 tier=off strength=bounded bound="3 operands (numeric/non-numeric pattern xNN); operand conversions: every double" fns=js_op::abstract_max stubs=4 timeout=400 cutdrop=1
     //@ desc="max of Number conversions over 3 operands: Err iff some operand is non-numeric, else exactly the left fold; conversions by contract"
     fold_harness!(k_c10_fold_max_3_xNN, 3, 2, abstract_max, 6);
     //@ob name=C10.fold.max.3.NNN harness=k_c10_fold_max_3_NNN props=C10,C01 tier=thorough strength=bounded bound="3 operands (numeric/non-numeric pattern NNN); operand conversions: every double" fns=js_op::abstract_max stubs=4 timeout=400 cutdrop=1
     //@ desc="max of Number conversions over 3 operands: Err iff some operand is non-numeric, else exactly the left fold; conversions by contract"
     fold_harness!(k_c10_fold_max_3_NNN, 3, 2, abstract_max, 7);
-    //@ob name=C10.fold.max.4.xxxx harness=k_c10_fold_max_4_xxxx props=C10,C01 tier=thorough strength=bounded bound="4 operands (numeric/non-numeric pattern xxxx); operand conversions: every double" fns=js_op::abstract_max stubs=4 timeout=400 cutdrop=1
+    //@ob name=C10.fold.max.4.xxxx harness=k_c10_fold_max_4_xxxx props=C10,C01 tier=off strength=bounded bound="4 operands (numeric/non-numeric pattern xxxx); operand conversions: every double" fns=js_op::abstract_max stubs=4 timeout=400 cutdrop=1
     //@ desc="max of Number conversions over 4 operands: Err iff some operand is non-numeric, else exactly the left fold; conversions by contract"
     fold_harness!(k_c10_fold_max_4_xxxx, 4, 2, abstract_max, 0);
-    //@ob name=C10.fold.max.4.Nxxx harness=k_c10_fold_max_4_Nxxx props=C10,C01 tier=thorough strength=bounded bound="4 operands (numeric/non-numeric pattern Nxxx); operand conversions: every double" fns=js_op::abstract_max stubs=4 timeout=400 cutdrop=1
+    //@ob name=C10.fold.max.4.Nxxx harness=k_c10_fold_max_4_Nxxx props=C10,C01 tier=off strength=bounded bound="4 operands (numeric/non-numeric pattern Nxxx); operand conversions: every double" fns=js_op::abstract_max stubs=4 timeout=400 cutdrop=1
     //@ desc="max of Number conversions over 4 operands: Err iff some operand is non-numeric, else exactly the left fold; conversions by contract"
     fold_harness!(k_c10_fold_max_4_Nxxx, 4, 2, abstract_max, 1);
-    //@ob name=C10.fold.max.4.xNxx harness=k_c10_fold_max_4_xNxx props=C10,C01 tier=thorough strength=bounded bound="4 operands (numeric/non-numeric pattern xNxx); operand conversions: every double" fns=js_op::abstract_max stubs=4 timeout=400 cutdrop=1
+    //@ob name=C10.fold.max.4.xNxx harness=k_c10_fold_max_4_xNxx props=C10,C01 tier=off strength=bounded bound="4 operands (numeric/non-numeric pattern xNxx); operand conversions: every double" fns=js_op::abstract_max stubs=4 timeout=400 cutdrop=1
     //@ desc="max of Number conversions over 4 operands: Err iff some operand is non-numeric, else exactly the left fold; conversions by contract"
     fold_harness!(k_c10_fold_max_4_xNxx, 4, 2, abstract_max, 2);
-    //@ob name=C10.fold.max.4.NNxx harness=k_c10_fold_max_4_NNxx props=C10,C01 tier=thorough strength=bounded bound="4 operands (numeric/non-numeric pattern NNxx); operand conversions: every double" fns=js_op::abstract_max stubs=4 timeout=400 cutdrop=1
+    //@ob name=C10.fold.max.4.NNxx harness=k_c10_fold_max_4_NNxx props=C10,C01 tier=off strength=bounded bound="4 operands (numeric/non-numeric pattern NNxx); operand conversions: every double" fns=js_op::abstract_max stubs=4 timeout=400 cutdrop=1
     //@ desc="max of Number conversions over 4 operands: Err iff some operand is non-numeric, else exactly the left fold; conversions by contract"
     fold_harness!(k_c10_fold_max_4_NNxx, 4, 2, abstract_max, 3);
-    //@ob name=C10.fold.max.4.xxNx harness=k_c10_fold_max_4_xxNx props=C10,C01 tier=thorough strength=bounded bound="4 operands (numeric/non-numeric pattern xxNx); operand conversions: every double" fns=js_op::abstract_max stubs=4 timeout=400 cutdrop=1
+    //@ob name=C10.fold.max.4.xxNx harness=k_c10_fold_max_4_xxNx props=C10,C01 tier=off strength=bounded bound="4 operands (numeric/non-numeric pattern xxNx); operand conversions: every double" fns=js_op::abstract_max stubs=4 timeout=400 cutdrop=1
     //@ desc="max of Number conversions over 4 operands: Err iff some operand is non-numeric, else exactly the left fold; conversions by contract"
     fold_harness!(k_c10_fold_max_4_xxNx, 4, 2, abstract_max, 4);
-    //@ob name=C10.fold.max.4.NxNx harness=k_c10_fold_max_4_NxNx props=C10,C01 tier=thorough strength=bounded bound="4 operands (numeric/non-numeric pattern NxNx); operand conversions: every double" fns=js_op::abstract_max stubs=4 timeout=400 cutdrop=1
+    //@ob name=C10.fold.max.4.NxNx harness=k_c10_fold_max_4_NxNx props=C10,C01 tier=off strength=bounded bound="4 operands (numeric/non-numeric pattern NxNx); operand conversions: every double" fns=js_op::abstract_max stubs=4 timeout=400 cutdrop=1
     //@ desc="max of Number conversions over 4 operands: Err iff some operand is non-numeric, else exactly the left fold; conversions by contract"
     fold_harness!(k_c10_fold_max_4_NxNx, 4, 2, abstract_max, 5);
-    //@ob name=C10.fold.max.4.xNNx harness=k_c10_fold_max_4_xNNx props=C10,C01 tier=thorough strength=bounded bound="4 operands (numeric/non-numeric pattern xNNx); operand conversions: every double" fns=js_op::abstract_max stubs=4 timeout=400 cutdrop=1
+    //@ob name=C10.fold.max.4.xNNx harness=k_c10_fold_max_4_xNNx props=C10,C01 tier=off strength=bounded bound="4 operands (numeric/non-numeric pattern xNNx); operand conversions: every double" fns=js_op::abstract_max stubs=4 timeout=400 cutdrop=1
     //@ desc="max of Number conversions over 4 operands: Err iff some operand is non-numeric, else exactly the left fold; conversions by contract"
     fold_harness!(k_c10_fold_max_4_xNNx, 4, 2, abstract_max, 6);
-    //@ob name=C10.fold.max.4.NNNx harness=k_c10_fold_max_4_NNNx props=C10,C01 tier=thorough strength=bounded bound="4 operands (numeric/non-numeric pattern NNNx); operand conversions: every double" fns=js_op::abstract_max stubs=4 timeout=400 cutdrop=1
+    //@ob name=C10.fold.max.4.NNNx harness=k_c10_fold_max_4_NNNx props=C10,C01 tier=off strength=bounded bound="4 operands (numeric/non-numeric pattern NNNx); operand conversions: every double" fns=js_op::abstract_max stubs=4 timeout=400 cutdrop=1
     //@ desc="max of Number conversions over 4 operands: Err iff some operand is non-numeric, else exactly the left fold; conversions by contract"
     fold_harness!(k_c10_fold_max_4_NNNx, 4, 2, abstract_max, 7);
-    //@ob name=C10.fold.max.4.xxxN harness=k_c10_fold_max_4_xxxN props=C10,C01 tier=thorough strength=bounded bound="4 operands (numeric/non-numeric pattern xxxN); operand conversions: every double" fns=js_op::abstract_max stubs=4 timeout=400 cutdrop=1
+    //@ob name=C10.fold.max.4.xxxN harness=k_c10_fold_max_4_xxxN props=C10,C01 tier=off strength=bounded bound="4 operands (numeric/non-numeric pattern xxxN); operand conversions: every double" fns=js_op::abstract_max stubs=4 timeout=400 cutdrop=1
     //@ desc="max of Number conversions over 4 operands: Err iff some operand is non-numeric, else exactly the left fold; conversions by contract"
     fold_harness!(k_c10_fold_max_4_xxxN, 4, 2, abstract_max, 8);
-    //@ob name=C10.fold.max.4.NxxN harness=k_c10_fold_max_4_NxxN props=C10,C01 tier=thorough strength=bounded bound="4 operands (numeric/non-numeric pattern NxxN); operand conversions: every double" fns=js_op::abstract_max stubs=4 timeout=400 cutdrop=1
+    //@ob name=C10.fold.max.4.NxxN harness=k_c10_fold_max_4_NxxN props=C10,C01 tier=off strength=bounded bound="4 operands (numeric/non-numeric pattern NxxN); operand conversions: every double" fns=js_op::abstract_max stubs=4 timeout=400 cutdrop=1
     //@ desc="max of Number conversions over 4 operands: Err iff some operand is non-numeric, else exactly the left fold; conversions by contract"
     fold_harness!(k_c10_fold_max_4_NxxN, 4, 2, abstract_max, 9);
-    //@ob name=C10.fold.max.4.xNxN harness=k_c10_fold_max_4_xNxN props=C10,C01 tier=thorough strength=bounded bound="4 operands (numeric/non-numeric pattern xNxN); operand conversions: every double" fns=js_op::abstract_max stubs=4 timeout=400 cutdrop=1
+    //@ob name=C10.fold.max.4.xNxN harness=k_c10_fold_max_4_xNxN props=C10,C01 tier=off strength=bounded bound="4 operands (numeric/non-numeric pattern xNxN); operand conversions: every double" fns=js_op::abstract_max stubs=4 timeout=400 cutdrop=1
     //@ desc="max of Number conversions over 4 operands: Err iff some operand is non-numeric, else exactly the left fold; conversions by contract"
     fold_harness!(k_c10_fold_max_4_xNxN, 4, 2, abstract_max, 10);
-    //@ob name=C10.fold.max.4.NNxN harness=k_c10_fold_max_4_NNxN props=C10,C01 tier=thorough strength=bounded bound="4 operands (numeric/non-numeric pattern NNxN); operand conversions: every double" fns=js_op::abstract_max stubs=4 timeout=400 cutdrop=1
+    //@ob name=C10.fold.max.4.NNxN harness=k_c10_fold_max_4_NNxN props=C10,C01 tier=off strength=bounded bound="4 operands (numeric/non-numeric pattern NNxN); operand conversions: every double" fns=js_op::abstract_max stubs=4 timeout=400 cutdrop=1
     //@ desc="max of Number conversions over 4 operands: Err iff some operand is non-numeric, else exactly the left fold; conversions by contract"
     fold_harness!(k_c10_fold_max_4_NNxN, 4, 2, abstract_max, 11);
-    //@ob name=C10.fold.max.4.xxNN harness=k_c10_fold_max_4_xxNN props=C10,C01 tier=thorough strength=bounded bound="4 operands (numeric/non-numeric pattern xxNN); operand conversions: every double" fns=js_op::abstract_max stubs=4 timeout=400 cutdrop=1
+    //@ob name=C10.fold.max.4.xxNN harness=k_c10_fold_max_4_xxNN props=C10,C01 tier=off strength=bounded bound="4 operands (numeric/non-numeric pattern xxNN); operand conversions: every double" fns=js_op::abstract_max stubs=4 timeout=400 cutdrop=1
     //@ desc="max of Number conversions over 4 operands: Err iff some operand is non-numeric, else exactly the left fold; conversions by contract"
     fold_harness!(k_c10_fold_max_4_xxNN, 4, 2, abstract_max, 12);
-    //@ob name=C10.fold.max.4.NxNN harness=k_c10_fold_max_4_NxNN props=C10,C01 tier=thorough strength=bounded bound="4 operands (numeric/non-numeric pattern NxNN); operand conversions: every double" fns=js_op::abstract_max stubs=4 timeout=400 cutdrop=1
+    //@ob name=C10.fold.max.4.NxNN harness=k_c10_fold_max_4_NxNN props=C10,C01 tier=off strength=bounded bound="4 operands (numeric/non-numeric pattern NxNN); operand conversions: every double" fns=js_op::abstract_max stubs=4 timeout=400 cutdrop=1
     //@ desc="max of Number conversions over 4 operands: Err iff some operand is non-numeric, else exactly the left fold; conversions by contract"
     fold_harness!(k_c10_fold_max_4_NxNN, 4, 2, abstract_max, 13);
-    //@ob name=C10.fold.max.4.xNNN harness=k_c10_fold_max_4_xNNN props=C10,C01 tier=thorough strength=bounded bound="4 operands (numeric/non-numeric pattern xNNN); operand conversions: every double" fns=js_op::abstract_max stubs=4 timeout=400 cutdrop=1
+    //@ob name=C10.fold.max.4.xNNN harness=k_c10_fold_max_4_xNNN props=C10,C01 tier=off strength=bounded bound="4 operands (numeric/non-numeric pattern xNNN); operand conversions: every double" fns=js_op::abstract_max stubs=4 timeout=400 cutdrop=1
     //@ desc="max of Number conversions over 4 operands: Err iff some operand is non-numeric, else exactly the left fold; conversions by contract"
     fold_harness!(k_c10_fold_max_4_xNNN, 4, 2, abstract_max, 14);
     //@ob name=C10.fold.max.4.NNNN harness=k_c10_fold_max_4_NNNN props=C10,C01 tier=thorough strength=bounded bound="4 operands (numeric/non-numeric pattern NNNN); operand conversions: every double" fns=js_op::abstract_max stubs=4 timeout=400 cutdrop=1
@@ -1027,73 +1027,73 @@ pub(crate) mod verif_js_op {
     //@ob name=C10.fold.min.2.NN harness=k_c10_fold_min_2_NN props=C10,C01 tier=quick strength=bounded bound="2 operands (numeric/non-numeric pattern NN); operand conversions: every double" fns=js_op::abstract_min stubs=4 timeout=400 cutdrop=1
     //@ desc="min of Number conversions over 2 operands: Err iff some operand is non-numeric, else exactly the left fold; conversions by contract"
     fold_harness!(k_c10_fold_min_2_NN, 2, 3, abstract_min, 3);
-    //@ob name=C10.fold.min.3.xxx harness=k_c10_fold_min_3_xxx props=C10,C01 tier=thorough strength=bounded bound="3 operands (numeric/non-numeric pattern xxx); operand conversions: every double" fns=js_op::abstract_min stubs=4 timeout=400 cutdrop=1
+    //@ob name=C10.fold.min.3.xxx harness=k_c10_fold_min_3_xxx props=C10,C01 tier=off strength=bounded bound="3 operands (numeric/non-numeric pattern xxx); operand conversions: every double" fns=js_op::abstract_min stubs=4 timeout=400 cutdrop=1
     //@ desc="min of Number conversions over 3 operands: Err iff some operand is non-numeric, else exactly the left fold; conversions by contract"
     fold_harness!(k_c10_fold_min_3_xxx, 3, 3, abstract_min, 0);
-    //@ob name=C10.fold.min.3.Nxx harness=k_c10_fold_min_3_Nxx props=C10,C01 tier=thorough strength=bounded bound="3 operands (numeric/non-numeric pattern Nxx); operand conversions: every double" fns=js_op::abstract_min stubs=4 timeout=400 cutdrop=1
+    //@ob name=C10.fold.min.3.Nxx harness=k_c10_fold_min_3_Nxx props=C10,C01 tier=off strength=bounded bound="3 operands (numeric/non-numeric pattern Nxx); operand conversions: every double" fns=js_op::abstract_min stubs=4 timeout=400 cutdrop=1
     //@ desc="min of Number conversions over 3 operands: Err iff some operand is non-numeric, else exactly the left fold; conversions by contract"
     fold_harness!(k_c10_fold_min_3_Nxx, 3, 3, abstract_min, 1);
-    //@ob name=C10.fold.min.3.xNx harness=k_c10_fold_min_3_xNx props=C10,C01 tier=thorough strength=bounded bound="3 operands (numeric/non-numeric pattern xNx); operand conversions: every double" fns=js_op::abstract_min stubs=4 timeout=400 cutdrop=1
+    //@ob name=C10.fold.min.3.xNx harness=k_c10_fold_min_3_xNx props=C10,C01 tier=off strength=bounded bound="3 operands (numeric/non-numeric pattern xNx); operand conversions: every double" fns=js_op::abstract_min stubs=4 timeout=400 cutdrop=1
     //@ desc="min of Number conversions over 3 operands: Err iff some operand is non-numeric, else exactly the left fold; conversions by contract"
     fold_harness!(k_c10_fold_min_3_xNx, 3, 3, abstract_min, 2);
-    //@ob name=C10.fold.min.3.NNx harness=k_c10_fold_min_3_NNx props=C10,C01 tier=thorough strength=bounded bound="3 operands (numeric/non-numeric pattern NNx); operand conversions: every double" fns=js_op::abstract_min stubs=4 timeout=400 cutdrop=1
+    //@ob name=C10.fold.min.3.NNx harness=k_c10_fold_min_3_NNx props=C10,C01 tier=off strength=bounded bound="3 operands (numeric/non-numeric pattern NNx); operand conversions: every double" fns=js_op::abstract_min stubs=4 timeout=400 cutdrop=1
     //@ desc="min of Number conversions over 3 operands: Err iff some operand is non-numeric, else exactly the left fold; conversions by contract"
     fold_harness!(k_c10_fold_min_3_NNx, 3, 3, abstract_min, 3);
-    //@ob name=C10.fold.min.3.xxN harness=k_c10_fold_min_3_xxN props=C10,C01 tier=thorough strength=bounded bound="3 operands (numeric/non-numeric pattern xxN); operand conversions: every double" fns=js_op::abstract_min stubs=4 timeout=400 cutdrop=1
+    //@ob name=C10.fold.min.3.xxN harness=k_c10_fold_min_3_xxN props=C10,C01 tier=off strength=bounded bound="3 operands (numeric/non-numeric pattern xxN); operand conversions: every double" fns=js_op::abstract_min stubs=4 timeout=400 cutdrop=1
     //@ desc="min of Number conversions over 3 operands: Err iff some operand is non-numeric, else exactly the left fold; conversions by contract"
     fold_harness!(k_c10_fold_min_3_xxN, 3, 3, abstract_min, 4);
-    //@ob name=C10.fold.min.3.NxN harness=k_c10_fold_min_3_NxN props=C10,C01 tier=thorough strength=bounded bound="3 operands (numeric/non-numeric pattern NxN); operand conversions: every double" fns=js_op::abstract_min stubs=4 timeout=400 cutdrop=1
+    //@ob name=C10.fold.min.3.NxN harness=k_c10_fold_min_3_NxN props=C10,C01 tier=off strength=bounded bound="3 operands (numeric/non-numeric pattern NxN); operand conversions: every double" fns=js_op::abstract_min stubs=4 timeout=400 cutdrop=1
     //@ desc="min of Number conversions over 3 operands: Err iff some operand is non-numeric, else exactly the left fold; conversions by contract"
     fold_harness!(k_c10_fold_min_3_NxN, 3, 3, abstract_min, 5);
-    //@ob name=C10.fold.min.3.xNN harness=k_c10_fold_min_3_xNN props=C10,C01 tier=thorough strength=bounded bound="3 operands (numeric/non-numeric pattern xNN); operand conversions: every double" fns=js_op::abstract_min stubs=4 timeout=400 cutdrop=1
+    //@ob name=C10.fold.min.3.xNN harness=k_c10_fold_min_3_xNN props=C10,C01 tier=off strength=bounded bound="3 operands (numeric/non-numeric pattern xNN); operand conversions: every double" fns=js_op::abstract_min stubs=4 timeout=400 cutdrop=1
     //@ desc="min of Number conversions over 3 operands: Err iff some operand is non-numeric, else exactly the left fold; conversions by contract"
     fold_harness!(k_c10_fold_min_3_xNN, 3, 3, abstract_min, 6);
     //@ob name=C10.fold.min.3.NNN harness=k_c10_fold_min_3_NNN props=C10,C01 tier=thorough strength=bounded bound="3 operands (numeric/non-numeric pattern NNN); operand conversions: every double" fns=js_op::abstract_min stubs=4 timeout=400 cutdrop=1
     //@ desc="min of Number conversions over 3 operands: Err iff some operand is non-numeric, else exactly the left fold; conversions by contract"
     fold_harness!(k_c10_fold_min_3_NNN, 3, 3, abstract_min, 7);
-    //@ob name=C10.fold.min.4.xxxx harness=k_c10_fold_min_4_xxxx props=C10,C01 tier=thorough strength=bounded bound="4 operands (numeric/non-numeric pattern xxxx); operand conversions: every double" fns=js_op::abstract_min stubs=4 timeout=400 cutdrop=1
+    //@ob name=C10.fold.min.4.xxxx harness=k_c10_fold_min_4_xxxx props=C10,C01 tier=off strength=bounded bound="4 operands (numeric/non-numeric pattern xxxx); operand conversions: every double" fns=js_op::abstract_min stubs=4 timeout=400 cutdrop=1
     //@ desc="min of Number conversions over 4 operands: Err iff some operand is non-numeric, else exactly the left fold; conversions by contract"
     fold_harness!(k_c10_fold_min_4_xxxx, 4, 3, abstract_min, 0);
-    //@ob name=C10.fold.min.4.Nxxx harness=k_c10_fold_min_4_Nxxx props=C10,C01 tier=thorough strength=bounded bound="4 operands (numeric/non-numeric pattern Nxxx); operand conversions: every double" fns=js_op::abstract_min stubs=4 timeout=400 cutdrop=1
+    //@ob name=C10.fold.min.4.Nxxx harness=k_c10_fold_min_4_Nxxx props=C10,C01 tier=off strength=bounded bound="4 operands (numeric/non-numeric pattern Nxxx); operand conversions: every double" fns=js_op::abstract_min stubs=4 timeout=400 cutdrop=1
     //@ desc="min of Number conversions over 4 operands: Err iff some operand is non-numeric, else exactly the left fold; conversions by contract"
     fold_harness!(k_c10_fold_min_4_Nxxx, 4, 3, abstract_min, 1);
-    //@ob name=C10.fold.min.4.xNxx harness=k_c10_fold_min_4_xNxx props=C10,C01 tier=thorough strength=bounded bound="4 operands (numeric/non-numeric pattern xNxx); operand conversions: every double" fns=js_op::abstract_min stubs=4 timeout=400 cutdrop=1
+    //@ob name=C10.fold.min.4.xNxx harness=k_c10_fold_min_4_xNxx props=C10,C01 tier=off strength=bounded bound="4 operands (numeric/non-numeric pattern xNxx); operand conversions: every double" fns=js_op::abstract_min stubs=4 timeout=400 cutdrop=1
     //@ desc="min of Number conversions over 4 operands: Err iff some operand is non-numeric, else exactly the left fold; conversions by contract"
     fold_harness!(k_c10_fold_min_4_xNxx, 4, 3, abstract_min, 2);
-    //@ob name=C10.fold.min.4.NNxx harness=k_c10_fold_min_4_NNxx props=C10,C01 tier=thorough strength=bounded bound="4 operands (numeric/non-numeric pattern NNxx); operand conversions: every double" fns=js_op::abstract_min stubs=4 timeout=400 cutdrop=1
+    //@ob name=C10.fold.min.4.NNxx harness=k_c10_fold_min_4_NNxx props=C10,C01 tier=off strength=bounded bound="4 operands (numeric/non-numeric pattern NNxx); operand conversions: every double" fns=js_op::abstract_min stubs=4 timeout=400 cutdrop=1
     //@ desc="min of Number conversions over 4 operands: Err iff some operand is non-numeric, else exactly the left fold; conversions by contract"
     fold_harness!(k_c10_fold_min_4_NNxx, 4, 3, abstract_min, 3);
-    //@ob name=C10.fold.min.4.xxNx harness=k_c10_fold_min_4_xxNx props=C10,C01 tier=thorough strength=bounded bound="4 operands (numeric/non-numeric pattern xxNx); operand conversions: every double" fns=js_op::abstract_min stubs=4 timeout=400 cutdrop=1
+    //@ob name=C10.fold.min.4.xxNx harness=k_c10_fold_min_4_xxNx props=C10,C01 tier=off strength=bounded bound="4 operands (numeric/non-numeric pattern xxNx); operand conversions: every double" fns=js_op::abstract_min stubs=4 timeout=400 cutdrop=1
     //@ desc="min of Number conversions over 4 operands: Err iff some operand is non-numeric, else exactly the left fold; conversions by contract"
     fold_harness!(k_c10_fold_min_4_xxNx, 4, 3, abstract_min, 4);
-    //@ob name=C10.fold.min.4.NxNx harness=k_c10_fold_min_4_NxNx props=C10,C01 tier=thorough strength=bounded bound="4 operands (numeric/non-numeric pattern NxNx); operand conversions: every double" fns=js_op::abstract_min stubs=4 timeout=400 cutdrop=1
+    //@ob name=C10.fold.min.4.NxNx harness=k_c10_fold_min_4_NxNx props=C10,C01 tier=off strength=bounded bound="4 operands (numeric/non-numeric pattern NxNx); operand conversions: every double" fns=js_op::abstract_min stubs=4 timeout=400 cutdrop=1
     //@ desc="min of Number conversions over 4 operands: Err iff some operand is non-numeric, else exactly the left fold; conversions by contract"
     fold_harness!(k_c10_fold_min_4_NxNx, 4, 3, abstract_min, 5);
-    //@ob name=C10.fold.min.4.xNNx harness=k_c10_fold_min_4_xNNx props=C10,C01 tier=thorough strength=bounded bound="4 operands (numeric/non-numeric pattern xNNx); operand conversions: every double" fns=js_op::abstract_min stubs=4 timeout=400 cutdrop=1
+    //@ob name=C10.fold.min.4.xNNx harness=k_c10_fold_min_4_xNNx props=C10,C01 tier=off strength=bounded bound="4 operands (numeric/non-numeric pattern xNNx); operand conversions: every double" fns=js_op::abstract_min stubs=4 timeout=400 cutdrop=1
     //@ desc="min of Number conversions over 4 operands: Err iff some operand is non-numeric, else exactly the left fold; conversions by contract"
     fold_harness!(k_c10_fold_min_4_xNNx, 4, 3, abstract_min, 6);
-    //@ob name=C10.fold.min.4.NNNx harness=k_c10_fold_min_4_NNNx props=C10,C01 tier=thorough strength=bounded bound="4 operands (numeric/non-numeric pattern NNNx); operand conversions: every double" fns=js_op::abstract_min stubs=4 timeout=400 cutdrop=1
+    //@ob name=C10.fold.min.4.NNNx harness=k_c10_fold_min_4_NNNx props=C10,C01 tier=off strength=bounded bound="4 operands (numeric/non-numeric pattern NNNx); operand conversions: every double" fns=js_op::abstract_min stubs=4 timeout=400 cutdrop=1
     //@ desc="min of Number conversions over 4 operands: Err iff some operand is non-numeric, else exactly the left fold; conversions by contract"
     fold_harness!(k_c10_fold_min_4_NNNx, 4, 3, abstract_min, 7);
-    //@ob name=C10.fold.min.4.xxxN harness=k_c10_fold_min_4_xxxN props=C10,C01 tier=thorough strength=bounded bound="4 operands (numeric/non-numeric pattern xxxN); operand conversions: every double" fns=js_op::abstract_min stubs=4 timeout=400 cutdrop=1
+    //@ob name=C10.fold.min.4.xxxN harness=k_c10_fold_min_4_xxxN props=C10,C01 tier=off strength=bounded bound="4 operands (numeric/non-numeric pattern xxxN); operand conversions: every double" fns=js_op::abstract_min stubs=4 timeout=400 cutdrop=1
     //@ desc="min of Number conversions over 4 operands: Err iff some operand is non-numeric, else exactly the left fold; conversions by contract"
     fold_harness!(k_c10_fold_min_4_xxxN, 4, 3, abstract_min, 8);
-    //@ob name=C10.fold.min.4.NxxN harness=k_c10_fold_min_4_NxxN props=C10,C01 tier=thorough strength=bounded bound="4 operands (numeric/non-numeric pattern NxxN); operand conversions: every double" fns=js_op::abstract_min stubs=4 timeout=400 cutdrop=1
+    //@ob name=C10.fold.min.4.NxxN harness=k_c10_fold_min_4_NxxN props=C10,C01 tier=off strength=bounded bound="4 operands (numeric/non-numeric pattern NxxN); operand conversions: every double" fns=js_op::abstract_min stubs=4 timeout=400 cutdrop=1
     //@ desc="min of Number conversions over 4 operands: Err iff some operand is non-numeric, else exactly the left fold; conversions by contract"
     fold_harness!(k_c10_fold_min_4_NxxN, 4, 3, abstract_min, 9);
-    //@ob name=C10.fold.min.4.xNxN harness=k_c10_fold_min_4_xNxN props=C10,C01 tier=thorough strength=bounded bound="4 operands (numeric/non-numeric pattern xNxN); operand conversions: every double" fns=js_op::abstract_min stubs=4 timeout=400 cutdrop=1
+    //@ob name=C10.fold.min.4.xNxN harness=k_c10_fold_min_4_xNxN props=C10,C01 tier=off strength=bounded bound="4 operands (numeric/non-numeric pattern xNxN); operand conversions: every double" fns=js_op::abstract_min stubs=4 timeout=400 cutdrop=1
     //@ desc="min of Number conversions over 4 operands: Err iff some operand is non-numeric, else exactly the left fold; conversions by contract"
     fold_harness!(k_c10_fold_min_4_xNxN, 4, 3, abstract_min, 10);
-    //@ob name=C10.fold.min.4.NNxN harness=k_c10_fold_min_4_NNxN props=C10,C01 tier=thorough strength=bounded bound="4 operands (numeric/non-numeric pattern NNxN); operand conversions: every double" fns=js_op::abstract_min stubs=4 timeout=400 cutdrop=1
+    //@ob name=C10.fold.min.4.NNxN harness=k_c10_fold_min_4_NNxN props=C10,C01 tier=off strength=bounded bound="4 operands (numeric/non-numeric pattern NNxN); operand conversions: every double" fns=js_op::abstract_min stubs=4 timeout=400 cutdrop=1
     //@ desc="min of Number conversions over 4 operands: Err iff some operand is non-numeric, else exactly the left fold; conversions by contract"
     fold_harness!(k_c10_fold_min_4_NNxN, 4, 3, abstract_min, 11);
-    //@ob name=C10.fold.min.4.xxNN harness=k_c10_fold_min_4_xxNN props=C10,C01 tier=thorough strength=bounded bound="4 operands (numeric/non-numeric pattern xxNN); operand conversions: every double" fns=js_op::abstract_min stubs=4 timeout=400 cutdrop=1
+    //@ob name=C10.fold.min.4.xxNN harness=k_c10_fold_min_4_xxNN props=C10,C01 tier=off strength=bounded bound="4 operands (numeric/non-numeric pattern xxNN); operand conversions: every double" fns=js_op::abstract_min stubs=4 timeout=400 cutdrop=1
     //@ desc="min of Number conversions over 4 operands: Err iff some operand is non-numeric, else exactly the left fold; conversions by contract"
     fold_harness!(k_c10_fold_min_4_xxNN, 4, 3, abstract_min, 12);
-    //@ob name=C10.fold.min.4.NxNN harness=k_c10_fold_min_4_NxNN props=C10,C01 tier=thorough strength=bounded bound="4 operands (numeric/non-numeric pattern NxNN); operand conversions: every double" fns=js_op::abstract_min stubs=4 timeout=400 cutdrop=1
+    //@ob name=C10.fold.min.4.NxNN harness=k_c10_fold_min_4_NxNN props=C10,C01 tier=off strength=bounded bound="4 operands (numeric/non-numeric pattern NxNN); operand conversions: every double" fns=js_op::abstract_min stubs=4 timeout=400 cutdrop=1
     //@ desc="min of Number conversions over 4 operands: Err iff some operand is non-numeric, else exactly the left fold; conversions by contract"
     fold_harness!(k_c10_fold_min_4_NxNN, 4, 3, abstract_min, 13);
-    //@ob name=C10.fold.min.4.xNNN harness=k_c10_fold_min_4_xNNN props=C10,C01 tier=thorough strength=bounded bound="4 operands (numeric/non-numeric pattern xNNN); operand conversions: every double" fns=js_op::abstract_min stubs=4 timeout=400 cutdrop=1
+    //@ob name=C10.fold.min.4.xNNN harness=k_c10_fold_min_4_xNNN props=C10,C01 tier=off strength=bounded bound="4 operands (numeric/non-numeric pattern xNNN); operand conversions: every double" fns=js_op::abstract_min stubs=4 timeout=400 cutdrop=1
     //@ desc="min of Number conversions over 4 operands: Err iff some operand is non-numeric, else exactly the left fold; conversions by contract"
     fold_harness!(k_c10_fold_min_4_xNNN, 4, 3, abstract_min, 14);
     //@ob name=C10.fold.min.4.NNNN harness=k_c10_fold_min_4_NNNN props=C10,C01 tier=thorough strength=bounded bound="4 operands (numeric/non-numeric pattern NNNN); operand conversions: every double" fns=js_op::abstract_min stubs=4 timeout=400 cutdrop=1
